@@ -281,7 +281,7 @@ func (s *chaos) props() {
 	case q < 8:
 		g.do(fmt.Sprintf("getprop %s %s", o, r.pick([]string{"align", "skip", "u1", "u2", "u3"})))
 	case q < 9:
-		g.do("chainlen " + o)
+		g.do("chainlen " + o + " 8") // five keys are in play here, three more are the renderers' own
 	default:
 		t := s.table()
 		if h := g.do(fmt.Sprintf("colhandle %s %d", t, r.n(g.ncols(t)+1))); h != "nil" {
